@@ -9,6 +9,13 @@
 (*           index i, for every index 0..n                                 *)
 (*   aggS / aggN  AggregateResponse strict / non strict succeeded          *)
 (*   fv      FullVerify accepted the final signature (fvpanic: it aborted) *)
+(*   fvUsed / fvCopy / fvAgg  the same verification on a value that was    *)
+(*           verified and queried with the honest fields first / a struct  *)
+(*           copy of such a value / the aggregated value, whose exported   *)
+(*           Signature and Mask were then overwritten with the final form  *)
+(*   fvBack  final form verified first, value restored to the aggregated   *)
+(*           form, verified with the signing key vector and message        *)
+(*   tvUsed, nkeys  ThresholdVerify(thr) and len(Keys()) of the used value *)
 (* Mode "full":    every outcome equals the specification's outcome.       *)
 (* Mode "monitor": exactly the implications of C13 (Cosi!Complete,         *)
 (*                 Cosi!RejectBadShare, Cosi!Sound).                       *)
@@ -34,12 +41,23 @@ Full(e) ==
     /\ e.aggS = AggregateOK(c, TRUE)
     /\ e.aggN = AggregateOK(c, FALSE)
     /\ e.fv = FullVerifyOK(c)
+    \* reused values: same verdict as the fresh value with the same fields
+    /\ e.fvUsed = FullVerifyOK(c) /\ e.fvCopy = FullVerifyOK(c) /\ e.fvAgg = FullVerifyOK(c)
+    /\ e.fvBack = FullVerifyOK(BackCase(c))
+    /\ e.tvUsed = ThresholdOK(c)
+    /\ e.nkeys = Cardinality(FinalMask(c))
 
 Monitor(e) ==
     LET c == CaseOf(e) IN
     /\ Complete(c, e.vr, e.aggS, e.aggN, e.fv)
     /\ RejectBadShare(c, e.vr, e.aggS)
     /\ Sound(c, e.fv)
+    \* the same implications for signature values that were used before their fields were rewritten
+    /\ Sound(c, e.fvUsed) /\ Sound(c, e.fvCopy) /\ Sound(c, e.fvAgg)
+    /\ Complete(c, e.vr, e.aggS, e.aggN, e.fvUsed) /\ Complete(c, e.vr, e.aggS, e.aggN, e.fvCopy)
+    /\ Complete(c, e.vr, e.aggS, e.aggN, e.fvAgg)
+    /\ Sound(BackCase(c), e.fvBack)
+    /\ ((AllGood(c) /\ ChallengeOK(c) /\ c.dom.op = "exact" /\ c.thr > 0 /\ c.thr <= Cardinality(c.cm)) => e.fvBack)
     /\ ~e.fvpanic                 \* "verification fails" is an orderly rejection, not an abort
 
 EventOK(e) == IF Mode = "full" THEN Full(e) ELSE Monitor(e)
